@@ -347,3 +347,237 @@ Proof.
     pose proof (proj1 (star_lazy_none k s) EL pre (mid ++ post) Es) as Hn. unfold k in Hn.
     pose proof (rx_match_complete _ _ _ _ _ Hn mid post eq_refl Hm). discriminate.
 Qed.
+
+(* ------------------------------------------------------------------ optimality of prefix matches:
+   greedy backtracking = the longest matching prefix, lazy = the shortest *)
+
+Lemma pmatch_app_intro : forall p q u w, pmatch p u -> pmatch q w -> pmatch (p ++ q) (u ++ w).
+Proof.
+  intros p q u w Hp Hq. induction Hp; simpl.
+  - exact Hq.
+  - constructor. exact IHHp.
+  - constructor. exact IHHp.
+  - apply pm_star_0. exact IHHp.
+  - apply pm_star_S. exact IHHp.
+Qed.
+
+Lemma pmatch_app_inv : forall p q x, pmatch (p ++ q) x ->
+  exists u w, x = u ++ w /\ pmatch p u /\ pmatch q w.
+Proof.
+  induction p as [|t p IH]; intros q x H; simpl in H.
+  - exists [], x. repeat split; [constructor|exact H].
+  - destruct t.
+    + inversion H as [|c' p' s0 H' | | |]; subst.
+      destruct (IH q s0 H') as (u & w & -> & Hu & Hw). exists (c :: u), w. repeat split; [constructor; exact Hu|exact Hw].
+    + inversion H as [| |c' p' s0 H' | |]; subst.
+      destruct (IH q s0 H') as (u & w & -> & Hu & Hw). exists (c' :: u), w. repeat split; [constructor; exact Hu|exact Hw].
+    + destruct (pmatch_star_inv _ _ H) as (pre & suf & -> & H').
+      destruct (IH q suf H') as (u & w & -> & Hu & Hw).
+      exists (pre ++ u), w. split; [rewrite app_assoc; reflexivity|]. split; [apply pmatch_star_app; exact Hu|exact Hw].
+Qed.
+
+Definition star_free (a : list ratom) : bool :=
+  forallb (fun t => match t with RStar => false | _ => true end) a.
+
+Lemma star_free_len : forall a x, star_free a = true -> pmatch (toks a) x -> length x = length a.
+Proof.
+  induction a as [|t a IH]; intros x Hs Hm; simpl in *.
+  - inversion Hm. reflexivity.
+  - apply andb_true_iff in Hs. destruct Hs as [Ht Hs]. destruct t; try discriminate; simpl in Hm.
+    + inversion Hm as [|c' p' s0 H' | | |]; subst. simpl. f_equal. apply IH; assumption.
+    + inversion Hm as [| |c' p' s0 H' | |]; subst. simpl. f_equal. apply IH; assumption.
+Qed.
+
+Lemma last_star : forall a, star_free a = true \/ exists f g, a = f ++ RStar :: g /\ star_free g = true.
+Proof.
+  induction a as [|t a IH]; [left; reflexivity|].
+  destruct IH as [Hs|(f & g & -> & Hg)].
+  - destruct t; [left; simpl; exact Hs|left; simpl; exact Hs|right; exists [], a; split; [reflexivity|exact Hs]].
+  - right. exists (t :: f), g. split; [reflexivity|exact Hg].
+Qed.
+
+Lemma first_star : forall a, star_free a = true \/ exists f g, a = f ++ RStar :: g /\ star_free f = true.
+Proof.
+  induction a as [|t a IH]; [left; reflexivity|].
+  destruct t.
+  - destruct IH as [Hs|(f & g & -> & Hf)]; [left; exact Hs|right; exists (RChar c :: f), g; split; [reflexivity|exact Hf]].
+  - destruct IH as [Hs|(f & g & -> & Hf)]; [left; exact Hs|right; exists (RAny :: f), g; split; [reflexivity|exact Hf]].
+  - right. exists [], a. split; reflexivity.
+Qed.
+
+Lemma toks_app : forall f g, toks (f ++ g) = toks f ++ toks g.
+Proof. intros. unfold toks. apply map_app. Qed.
+
+Lemma app_eq_split : forall (A : Type) (a b c d : list A),
+  a ++ b = c ++ d -> (length a <= length c)%nat -> exists e, c = a ++ e /\ b = e ++ d.
+Proof.
+  induction a as [|x a IH]; intros b c d H Hl.
+  - exists c. split; [reflexivity|exact H].
+  - destruct c as [|y c]; [simpl in Hl; lia|]. simpl in H. inversion H; subst.
+    destruct (IH b c d H2) as (e & -> & ->); [simpl in Hl; lia|]. exists e. split; reflexivity.
+Qed.
+
+Definition K_rest : str -> option str := fun rest => Some rest.
+
+Lemma rx_some_exists : forall lz a s,
+  (exists pre suf, s = pre ++ suf /\ pmatch (toks a) pre) -> exists rest, rx_match lz a K_rest s = Some rest.
+Proof.
+  intros lz a s (pre & suf & Es & Hm). destruct (rx_match lz a K_rest s) as [rest|] eqn:E; [exists rest; reflexivity|].
+  pose proof (rx_match_complete _ _ _ _ _ E pre suf Es Hm) as Hk. discriminate.
+Qed.
+
+(* a later start reaches at least as far: if r matches q2 at the start of q2 ++ suf, and s1 is a later
+   suffix of that string on which r matches at all, then r matches a prefix of s1 that leaves at most suf *)
+Lemma shift_right : forall r q2 suf d s1 m rest0,
+  pmatch (toks r) q2 -> q2 ++ suf = d ++ s1 ->
+  s1 = m ++ rest0 -> pmatch (toks r) m ->
+  exists m' rest', s1 = m' ++ rest' /\ pmatch (toks r) m' /\ (length rest' <= length suf)%nat.
+Proof.
+  intros r q2 suf d s1 m rest0 Hq E Es1 Hm.
+  destruct (Nat.le_gt_cases (length rest0) (length suf)) as [Hle|Hgt].
+  { exists m, rest0. auto. }
+  destruct (last_star r) as [Hsf|(f & g & -> & Hg)].
+  - (* fixed length: impossible to leave more *)
+    pose proof (star_free_len _ _ Hsf Hq) as L1. pose proof (star_free_len _ _ Hsf Hm) as L2.
+    apply (f_equal (@length N)) in E. subst s1. rewrite !app_length in E. lia.
+  - rewrite toks_app in Hq, Hm. simpl toks in Hq, Hm.
+    destruct (pmatch_app_inv _ _ _ Hq) as (u2 & x2 & -> & Hu2 & Hx2).
+    destruct (pmatch_app_inv _ _ _ Hm) as (u1 & x1 & -> & Hu1 & Hx1).
+    destruct (pmatch_star_inv _ _ Hx2) as (v2 & w2 & -> & Hw2).
+    destruct (pmatch_star_inv _ _ Hx1) as (v1 & w1 & -> & Hw1).
+    pose proof (star_free_len _ _ Hg Hw2) as L2. pose proof (star_free_len _ _ Hg Hw1) as L1.
+    (* w2 ++ suf is a suffix of s1, after u1 *)
+    assert (Elen : (length (d ++ u1) <= length ((u2 ++ v2)))%nat).
+    { apply (f_equal (@length N)) in E. subst s1. rewrite !app_length in *. lia. }
+    assert (E' : (d ++ u1) ++ ((v1 ++ w1) ++ rest0) = (u2 ++ v2) ++ (w2 ++ suf)).
+    { subst s1. rewrite <- !app_assoc in *. rewrite <- E. reflexivity. }
+    destruct (app_eq_split _ _ _ _ _ E' Elen) as (V & EV & EV2).
+    exists (u1 ++ V ++ w2), suf. split; [|split; [|lia]].
+    + subst s1. rewrite <- !app_assoc. f_equal. rewrite <- ?app_assoc in EV2. exact EV2.
+    + rewrite toks_app. apply pmatch_app_intro; [exact Hu1|]. simpl. apply pmatch_star_app. exact Hw2.
+Qed.
+
+Theorem greedy_longest : forall a s rest,
+  rx_match false a K_rest s = Some rest ->
+  forall pre suf, s = pre ++ suf -> pmatch (toks a) pre -> (length rest <= length suf)%nat.
+Proof.
+  induction a as [|t a IH]; intros s rest H pre suf Es Hm.
+  - simpl in H. inversion H; subst. inversion Hm; subst. simpl. lia.
+  - destruct t; simpl in H, Hm.
+    + inversion Hm as [|c' p' s0 H' | | |]; subst. simpl in H. rewrite N.eqb_refl in H.
+      apply (IH _ _ H s0 suf eq_refl H').
+    + inversion Hm as [| |c' p' s0 H' | |]; subst. simpl in H. apply (IH _ _ H s0 suf eq_refl H').
+    + destruct (star_greedy_some _ _ _ H) as (p1 & s1 & Es1 & Hk & Hmax).
+      destruct (pmatch_star_inv _ _ Hm) as (q1 & q2 & -> & Hq2).
+      destruct (rx_match_sound _ _ _ _ _ _ Hk) as (m & rest0 & Em & Hmm & Hk0). inversion Hk0; subst rest0.
+      destruct (Nat.lt_trichotomy (length q1) (length p1)) as [Hlt|[Heq|Hgt]].
+      * (* the competitor starts earlier *)
+        assert (E2 : q1 ++ (q2 ++ suf) = p1 ++ s1) by (rewrite <- Es1, Es, app_assoc; reflexivity).
+        destruct (app_eq_split _ _ _ _ _ E2 (Nat.lt_le_incl _ _ Hlt)) as (d & -> & Ed).
+        destruct (shift_right a q2 suf d s1 m rest Hq2 Ed Em Hmm) as (m' & rest' & Es' & Hm' & Hl').
+        pose proof (IH _ _ Hk m' rest' Es' Hm'). lia.
+      * assert (E2 : q1 ++ (q2 ++ suf) = p1 ++ s1) by (rewrite <- Es1, Es, app_assoc; reflexivity).
+        destruct (app_eq_split _ _ _ _ _ E2 (Nat.eq_le_incl _ _ Heq)) as (d & -> & Ed).
+        rewrite app_length in Heq. destruct d; [|simpl in Heq; lia]. simpl in Ed.
+        apply (IH _ _ Hk q2 suf (eq_sym Ed) Hq2).
+      * exfalso. assert (E2 : s = q1 ++ (q2 ++ suf)) by (rewrite Es, app_assoc; reflexivity).
+        pose proof (Hmax q1 (q2 ++ suf) E2 Hgt) as Hn.
+        pose proof (rx_match_complete _ _ _ _ _ Hn q2 suf eq_refl Hq2). discriminate.
+Qed.
+
+(* an earlier start can stop at least as early *)
+Lemma shift_left : forall r q2 suf d s1 m rest0,
+  pmatch (toks r) q2 -> s1 = d ++ q2 ++ suf ->
+  s1 = m ++ rest0 -> pmatch (toks r) m ->
+  exists m' rest', s1 = m' ++ rest' /\ pmatch (toks r) m' /\ (length suf <= length rest')%nat.
+Proof.
+  intros r q2 suf d s1 m rest0 Hq E Es1 Hm.
+  destruct (Nat.le_gt_cases (length suf) (length rest0)) as [Hle|Hgt].
+  { exists m, rest0. auto. }
+  destruct (first_star r) as [Hsf|(f & g & -> & Hf)].
+  - pose proof (star_free_len _ _ Hsf Hq) as L1. pose proof (star_free_len _ _ Hsf Hm) as L2.
+    assert (E3 : length (d ++ q2 ++ suf) = length (m ++ rest0)) by (rewrite <- E, <- Es1; reflexivity).
+    rewrite !app_length in E3. lia.
+  - rewrite toks_app in Hq, Hm. simpl toks in Hq, Hm.
+    destruct (pmatch_app_inv _ _ _ Hq) as (u2 & x2 & -> & Hu2 & Hx2).
+    destruct (pmatch_app_inv _ _ _ Hm) as (u1 & x1 & -> & Hu1 & Hx1).
+    destruct (pmatch_star_inv _ _ Hx2) as (v2 & w2 & -> & Hw2).
+    pose proof (star_free_len _ _ Hf Hu2) as L2. pose proof (star_free_len _ _ Hf Hu1) as L1.
+    assert (E' : u1 ++ (x1 ++ rest0) = (d ++ u2 ++ v2) ++ (w2 ++ suf)).
+    { rewrite <- !app_assoc in *. rewrite <- Es1, E. reflexivity. }
+    assert (Elen : (length u1 <= length (d ++ u2 ++ v2))%nat) by (rewrite !app_length; lia).
+    destruct (app_eq_split _ _ _ _ _ E' Elen) as (V & EV & EV2).
+    exists (u1 ++ V ++ w2), suf. split; [|split; [|lia]].
+    + rewrite E. rewrite <- !app_assoc. rewrite !app_assoc. rewrite <- (app_assoc d), <- (app_assoc d).
+      rewrite !app_assoc in EV. rewrite <- !app_assoc in EV. rewrite <- !app_assoc.
+      transitivity ((d ++ u2 ++ v2) ++ w2 ++ suf); [rewrite <- !app_assoc; reflexivity|].
+      rewrite EV. rewrite <- !app_assoc. reflexivity.
+    + rewrite toks_app. apply pmatch_app_intro; [exact Hu1|]. simpl. apply pmatch_star_app. exact Hw2.
+Qed.
+
+Theorem lazy_shortest : forall a s rest,
+  rx_match true a K_rest s = Some rest ->
+  forall pre suf, s = pre ++ suf -> pmatch (toks a) pre -> (length suf <= length rest)%nat.
+Proof.
+  induction a as [|t a IH]; intros s rest H pre suf Es Hm.
+  - simpl in H. inversion H; subst. inversion Hm; subst. simpl. lia.
+  - destruct t; simpl in H, Hm.
+    + inversion Hm as [|c' p' s0 H' | | |]; subst. simpl in H. rewrite N.eqb_refl in H.
+      apply (IH _ _ H s0 suf eq_refl H').
+    + inversion Hm as [| |c' p' s0 H' | |]; subst. simpl in H. apply (IH _ _ H s0 suf eq_refl H').
+    + destruct (star_lazy_some _ _ _ H) as (p1 & s1 & Es1 & Hk & Hmin).
+      destruct (pmatch_star_inv _ _ Hm) as (q1 & q2 & -> & Hq2).
+      destruct (rx_match_sound _ _ _ _ _ _ Hk) as (m & rest0 & Em & Hmm & Hk0). inversion Hk0; subst rest0.
+      destruct (Nat.lt_trichotomy (length p1) (length q1)) as [Hlt|[Heq|Hgt]].
+      * (* the competitor starts later *)
+        assert (E2 : p1 ++ s1 = q1 ++ (q2 ++ suf)) by (rewrite <- Es1, Es, app_assoc; reflexivity).
+        destruct (app_eq_split _ _ _ _ _ E2 (Nat.lt_le_incl _ _ Hlt)) as (d & -> & Ed).
+        destruct (shift_left a q2 suf d s1 m rest Hq2 Ed Em Hmm) as (m' & rest' & Es' & Hm' & Hl').
+        pose proof (IH _ _ Hk m' rest' Es' Hm'). lia.
+      * assert (E2 : p1 ++ s1 = q1 ++ (q2 ++ suf)) by (rewrite <- Es1, Es, app_assoc; reflexivity).
+        destruct (app_eq_split _ _ _ _ _ E2 (Nat.eq_le_incl _ _ Heq)) as (d & -> & Ed).
+        rewrite app_length in Heq. destruct d; [|simpl in Heq; lia]. simpl in Ed.
+        apply (IH _ _ Hk q2 suf Ed Hq2).
+      * exfalso. assert (E2 : s = q1 ++ (q2 ++ suf)) by (rewrite Es, app_assoc; reflexivity).
+        pose proof (Hmin q1 (q2 ++ suf) E2 Hgt) as Hn.
+        pose proof (rx_match_complete _ _ _ _ _ Hn q2 suf eq_refl Hq2). discriminate.
+Qed.
+
+(* ${v#p} ${v##p}: full *)
+Theorem remove_prefix_correct : forall s pat a shortest,
+  pat_atoms pat = PatOk a ->
+  is_prefix_removal (negb shortest) (toks a) s (remove_pattern s pat false shortest).
+Proof.
+  intros s pat a shortest Hp. unfold remove_pattern. rewrite Hp. cbv zeta.
+  change (fun rest : str => Some rest) with K_rest.
+  destruct (rx_match shortest a K_rest s) as [rest|] eqn:E.
+  - left. destruct (rx_match_sound _ _ _ _ _ _ E) as (pre & suf & Es & Hm & Hk). inversion Hk; subst suf.
+    exists pre. split; [exact Es|]. split; [exact Hm|].
+    intros pre' r' Es' Hm'.
+    assert (Hlen : (length pre + length rest = length pre' + length r')%nat)
+      by (rewrite <- !app_length, <- Es, <- Es'; reflexivity).
+    destruct shortest; simpl negb; cbv iota.
+    + pose proof (lazy_shortest _ _ _ E pre' r' Es' Hm'). lia.
+    + pose proof (greedy_longest _ _ _ E pre' r' Es' Hm'). lia.
+  - right. split; [reflexivity|]. intros pre suf Es Hm.
+    pose proof (rx_match_complete _ _ _ _ _ E pre suf Es Hm) as Hk. discriminate.
+Qed.
+
+(* ${v/#p/w}: the LONGEST matching prefix is replaced *)
+Theorem replace_anchored_begin_correct : forall a w s,
+  let r := replace_anchored a w s false in
+  (exists pre suf, s = pre ++ suf /\ pmatch (toks a) pre /\ r = w ++ suf /\
+     forall pre' suf', s = pre' ++ suf' -> pmatch (toks a) pre' -> (length pre' <= length pre)%nat)
+  \/ (r = s /\ forall pre suf, s = pre ++ suf -> ~ pmatch (toks a) pre).
+Proof.
+  intros a w s. unfold replace_anchored. cbv zeta. change (fun rest : str => Some rest) with K_rest.
+  destruct (rx_match false a K_rest s) as [rest|] eqn:E.
+  - left. destruct (rx_match_sound _ _ _ _ _ _ E) as (pre & suf & Es & Hm & Hk). inversion Hk; subst suf.
+    exists pre, rest. repeat split; auto.
+    intros pre' suf' Es' Hm'.
+    assert (Hlen : (length pre + length rest = length pre' + length suf')%nat)
+      by (rewrite <- !app_length, <- Es, <- Es'; reflexivity).
+    pose proof (greedy_longest _ _ _ E pre' suf' Es' Hm'). lia.
+  - right. split; [reflexivity|]. intros pre suf Es Hm.
+    pose proof (rx_match_complete _ _ _ _ _ E pre suf Es Hm) as Hk. discriminate.
+Qed.
